@@ -456,6 +456,9 @@ Definition width (d : sdatum) : Z := sd_i1 d - sd_i0 d.
 Definition expand_ind (d : sdatum) : list Z := zrange (sd_i0 d) (sd_i1 d).
 Definition expand_seq (d : sdatum) : list Z := zrange (sd_q0 d) (sd_q1 d).
 Definition zsum (l : list Z) : Z := fold_right Z.add 0%Z l.
+(* the rows of a stream datum, each tagged with the uid of its stream resource *)
+Definition tag_ind (d : sdatum) : list (string * Z) := map (pair (sd_sres d)) (expand_ind d).
+Definition tag_seq (d : sdatum) : list (string * Z) := map (pair (sd_sres d)) (expand_seq d).
 
 (* stream datums received for the stream resources that ended up mapped to consolidator cid *)
 Definition received_for (cid : string) (st : state) (docs : list doc) : list sdatum :=
@@ -610,7 +613,10 @@ Definition external_b (docs : list doc) (st : state) : bool :=
   && forallb (fun cid => match lookup cid (s_cons st) with Some _ => true | None => false end) (map fst (puts L))
   && forallb (fun d => match lookup (sd_sres d) (s_sres_nodes st) with
                        | Some cid => match lookup cid (s_cons st) with Some _ => true | None => false end
-                       | None => false end) (stream_datums docs)
+                       | None => false end) (filter (fun d => (sd_i0 d <? sd_i1 d)%Z) (stream_datums docs))
+  && forallb (fun s => perm_b (flat_map expand_ind (filter (fun d => seqb s (sd_sres d)) (map snd (puts L))))
+                              (flat_map expand_ind (filter (fun d => seqb s (sd_sres d)) (stream_datums docs))))
+             (map sd_sres (stream_datums docs) ++ map (fun p => sd_sres (snd p)) (puts L))
   && forallb (fun kd => existsb (fun p => sdatum_beq (snd kd) (snd p)) (puts L)) (s_ecache st)
   && snodup_b (new_arrays L)
   && forallb (fun kc => smem (fst kc) (new_arrays L)) (s_cons st).
@@ -667,3 +673,38 @@ Definition sd_wf (docs : list doc) : Prop :=
 Definition seq_aligned (off : string -> Z) (docs : list doc) : Prop :=
   forall d, In d (stream_datums docs) ->
     sd_q0 d = (sd_i0 d + off (sd_sres d))%Z /\ sd_q1 d = (sd_i1 d + off (sd_sres d))%Z.
+
+(* ------------------------------------------------------------------ "one array per external data key", by pair *)
+
+(* the (stream name, data_key) pair of a received stream datum, read off the documents *)
+Definition pair_of (docs : list doc) (d : sdatum) : option (string * string) :=
+  match lookup (sd_desc d) (final_dm docs), lookup (sd_sres d) (final_sr docs) with
+  | Some n, Some k => Some (n, k)
+  | _, _ => None
+  end.
+
+(* every pair that received stream datums has its own array node <name>/<key>, whose consolidator counted
+   exactly the rows of the stream datums of that pair *)
+Definition arrays_by_pair_b (docs : list doc) (st : state) : bool :=
+  forallb (fun p =>
+    match lookup (fdk (fst p) (snd p)) (s_cons st) with
+    | Some c => seqb (c_node c) (fst p) && seqb (c_dk c) (snd p)
+                && Z.eqb (c_rows c)
+                         (zsum (map width (filter (fun d => option_beq pair_beq (pair_of docs d) (Some p))
+                                                  (stream_datums docs))))
+    | None => false
+    end) (ext_pairs docs).
+
+(* extra well-formedness under which the pair reading is meaningful: descriptor uids and stream resource uids
+   are declared once, every stream datum names a declared descriptor and resource, and the stream datums of one
+   stream resource all belong to one stream *)
+Definition desc_uids (docs : list doc) : list string :=
+  flat_map (fun d => match d with DDescriptor x => [d_uid x] | _ => [] end) docs.
+Definition sres_uids (docs : list doc) : list string :=
+  flat_map (fun d => match d with DSres r => [sr_uid r] | _ => [] end) docs.
+Definition wf_ext_b (docs : list doc) : bool :=
+  snodup_b (desc_uids docs) && snodup_b (sres_uids docs)
+  && forallb (fun d => match pair_of docs d with Some _ => true | None => false end) (stream_datums docs)
+  && forallb (fun d => forallb (fun d' => negb (seqb (sd_sres d) (sd_sres d'))
+                                          || option_beq pair_beq (pair_of docs d) (pair_of docs d'))
+                               (stream_datums docs)) (stream_datums docs).
